@@ -8,6 +8,7 @@ import (
 	"hash/fnv"
 	"os"
 	"path/filepath"
+	"runtime"
 	"sort"
 	"strings"
 	"sync"
@@ -146,7 +147,25 @@ func Guard(body func()) (knownKey string) {
 	return ""
 }
 
-func AddRun()                   { mu.Lock(); st.Runs++; mu.Unlock() }
+func AddRun() {
+	mu.Lock()
+	st.Runs++
+	r := st.Runs
+	mu.Unlock()
+	if os.Getenv("VERIF_MEMDEBUG") != "" && r%20 == 0 {
+		var m runtime.MemStats
+		runtime.ReadMemStats(&m)
+		rss := ""
+		if b, err := os.ReadFile("/proc/self/status"); err == nil {
+			for _, ln := range strings.Split(string(b), "\n") {
+				if strings.HasPrefix(ln, "VmRSS") {
+					rss = ln
+				}
+			}
+		}
+		fmt.Fprintf(os.Stderr, "MEMDEBUG run %d goroutines %d heapInuse %dMB heapSys %dMB released %dMB stackInuse %dMB sys %dMB %s\n", r, runtime.NumGoroutine(), m.HeapInuse>>20, m.HeapSys>>20, m.HeapReleased>>20, m.StackInuse>>20, m.Sys>>20, rss)
+	}
+}
 func AddSteps(n int64)          { mu.Lock(); st.Steps += n; mu.Unlock() }
 func AddSimSeconds(s float64)   { mu.Lock(); st.SimSeconds += s; mu.Unlock() }
 func Fault(kind string)         { mu.Lock(); st.Faults[kind]++; mu.Unlock() }
